@@ -7,36 +7,119 @@ Tie: harness/c17 runs the real call sites of the library (vlib.REPO) on real thr
 1..8 threads and the Coq model recomputes every merged observable from per-job contributions
 obtained by sequential single-job runs (cases_*.v exact in Q / bit-exact floats, tol_*.v
 certified by Coq-Interval for the log-add results).
+Round 2: the merge theorem per accumulator and per configuration of the optional accumulators
+(ModelCfg / ProofsCfg) tied by the option matrix stream (ocases_*.v: OptimizeEmissions x
+OptimizeTransitions / OptimizeWeights on pools 1..8, every returned observable); the write-set
+theorem re-checked on access lists generated from the Go closures by /verif/go2coq_c17
+(Sites_gen.v, regenerated on every run; private Coq tree under ctx.dir when vlib.REPO != /repo);
+SAGA partition and estimate tied (sagacases_*.v); matrixEstimator and NumericEstimator driven.
 Supporting evidence (labelled so): a -race build of the same harness under a deadline.
 """
-import glob, json, os
+import glob, json, os, shutil
 import vlib
 
 TARGETS = ["Base/Corr.vo", "C17/Model.vo", "C17/Spec.vo", "C17/Sites.vo", "C17/Carriers.vo", "C17/ProofsMerge.vo",
-           "C17/ProofsChunks.vo", "C17/ProofsErr.vo", "C17/ProofsSites.vo", "C17/Corr.vo", "C17/Props.vo"]
+           "C17/ProofsChunks.vo", "C17/ProofsErr.vo", "C17/ProofsSites.vo", "C17/Corr.vo", "C17/ModelCfg.vo", "C17/ProofsCfg.vo",
+           "C17/CorrCfg.vo", "C17/SitesGenDefs.vo", "C17/Sites_gen.vo", "C17/ProofsSitesGen.vo", "C17/Props.vo"]
 PROPS = ["C17/Props.v"]
-PARTIAL = ("Scheduling model, not a thread model: the theorems are about coq/C17/Model.v (per-thread accumulators, lazy init "
-           "flags, the four merge loops, AddRangeJob's chunk arithmetic, the error slot). Actual interleavings, the Go memory "
-           "model, deadlock freedom of Wait and the threadpool package itself (outside the library; assumed to run every queued "
-           "job exactly once on one thread id at a time) are not modelled; they are sampled by a -race build of the harness "
-           "under a deadline (supporting evidence only). Theorem (2) is about the access lists transcribed in coq/C17/Sites.v. "
+PARTIAL = ("Scheduling model, not a thread model: the theorems are about coq/C17/Model.v and ModelCfg.v (per-thread accumulators, lazy init "
+           "flags, the merge loops per configuration of the optional accumulators, AddRangeJob's chunk arithmetic, the error slot). Actual "
+           "interleavings, the Go memory model, deadlock freedom of Wait and the threadpool package itself (outside the library; assumed to "
+           "run every queued job exactly once on one thread id at a time) are not modelled; they are sampled by a -race build of the harness "
+           "under a deadline (supporting evidence only). Theorem (2) is about the access lists go2coq_c17 derives from the closures "
+           "(assignments and method calls, same-package callees followed to depth 4): writes behind function values or interface methods "
+           "and writes a callee makes through an argument are not listed (F-SAGA-THETA-RACE is of that kind and is seen by the race detector only). "
            "Over floats the merged value depends on the reduction order: equality is proved over exact commutative monoids "
            "(R, Q, log-add on R u {-inf}); on binary64 the check demands equality when all partial sums are exactly "
            "representable (decided in Coq) and |go - sum| <= n*2^-52*sum|c_j| otherwise; log-add results within 1e-9 "
-           "(certified by Coq-Interval). SAGA logistic regression partitions the data by pool size and averages: its "
-           "result depends on the pool size by design; only its partition is proved, not tied.")
+           "(certified by Coq-Interval for one pool per configuration, compared with the sequential run elsewhere). SAGA logistic regression "
+           "partitions the data by pool size and averages: its result depends on the pool size by design; its partition is proved and tied, its "
+           "estimate is compared bit for bit with the same partition executed sequentially (up to 6 attempts because of F-SAGA-THETA-RACE). "
+           "The Baum-Welch configuration without transitions panics (F-BW-NOTRANS-NILDEREF) and is driven on the pool of one thread only. "
+           "matrixEstimator / vectorEstimator mixtures and HMMs, ShapeHmm and the NumericEstimator parameters are compared across pools "
+           "(1e-9, NumericEstimator 1e-6), not recomputed by the model.")
 
-SITE_OF = {"em": "statistics/generic/mixture_em.go EmStep", "bw": "statistics/generic/hmm_baumWelch.go BaumWelchStep",
+SITE_OF = {"em-opt": "statistics/generic/mixture_em.go EmStep (option matrix)", "bw-opt": "statistics/generic/hmm_baumWelch.go BaumWelchStep (option matrix)",
+           "saga": "statistics/vectorEstimator/logisticRegression.go sagaLogisticRegressionL1", "numeric": "statistics/scalarEstimator/numeric.go Estimate",
+           "em": "statistics/generic/mixture_em.go EmStep", "bw": "statistics/generic/hmm_baumWelch.go BaumWelchStep",
            "normal": "statistics/scalarEstimator/normal.go Estimate/updateEstimate", "xpool": "scalar/vector estimators Estimate",
            "chunks": "threadpool AddRangeJob", "bw-err": "BaumWelchStep error path", "em-err": "EmStep error path",
            "x": "scalar/vector estimators Estimate", "full": "vectorEstimator.HmmEstimator / scalarEstimator.MixtureEstimator"}
 
 
-def eval_all(ctx, stem):
-    cases = sorted(glob.glob(os.path.join(ctx.dir, stem + "_*.v")), key=lambda p: int(p.rsplit("_", 1)[1][:-2]))
-    tols = sorted(glob.glob(os.path.join(ctx.dir, "tol_*.v")), key=lambda p: int(p.rsplit("_", 1)[1][:-2]))
-    res = vlib.eval_shards(cases + tols)
-    return cases, tols, res[:len(cases)], res[len(cases):]
+# ---------------------------------------------------------------- access lists derived from the Go source
+
+def private_tree(ctx, gen_text):
+    """REPO is redirected and its job closures differ from the committed Sites_gen.v: compile Base + C17 with the
+    regenerated file in a private tree under ctx.dir (the shared coq/ tree is left alone)."""
+    root = os.path.join(ctx.dir, "coq")
+    for d in ("Base", "C17"):
+        os.makedirs(os.path.join(root, d), exist_ok=True)
+        for f in glob.glob(os.path.join(vlib.ROOT, "coq", d, "*.v")):
+            shutil.copy(f, os.path.join(root, d, os.path.basename(f)))
+    open(os.path.join(root, "C17", "Sites_gen.v"), "w").write(gen_text)
+    return root
+
+
+def translate(ctx):
+    """Regenerate Sites_gen.v from vlib.REPO (go/ast pass over the job closures). Returns list of failures."""
+    tool, tlog = vlib.build_tool("go2coq_c17", "go2coq_c17")
+    if tool is None:
+        ctx.oblige(1, 0)
+        return [{"target": "go2coq_c17 build", "lemma": None, "errors": [tlog[-1500:]]}]
+    gen = os.path.join(ctx.dir, "Sites_gen.v")
+    rep = os.path.join(ctx.dir, "sites_gen_report.json")
+    rc, out = vlib.sh([tool, "-repo", vlib.REPO, "-out", gen, "-report", rep], timeout=120, env=vlib.go_env())
+    if rc != 0 or not os.path.exists(gen) or not os.path.exists(rep):
+        ctx.oblige(1, 0)
+        return [{"target": "go2coq_c17 run", "lemma": None, "errors": [out[-1500:]]}]
+    report = json.load(open(rep))
+    ctx.cov["access_lists"] = {"closures": report.get("closures"), "accesses": report.get("accesses"), "tool": "go2coq_c17 (go/parser + go/ast)"}
+    ctx.oblige(1, 1 if report.get("ok") else 0)
+    new = open(gen).read()
+    committed_path = os.path.join(vlib.ROOT, "coq", "C17", "Sites_gen.v")
+    committed = open(committed_path).read() if os.path.exists(committed_path) else ""
+    ctx.cov["access_lists"]["changed"] = new != committed
+    if new != committed:
+        if os.path.abspath(vlib.REPO) == "/repo":
+            open(committed_path, "w").write(new)
+            ctx.log("Sites_gen.v regenerated from %s differs from the previous one: the write-set theorem is re-checked against it" % vlib.REPO)
+        else:
+            vlib.COQ = private_tree(ctx, new)
+            ctx.log("Sites_gen.v regenerated from %s differs: proofs re-checked in private tree %s" % (vlib.REPO, vlib.COQ))
+    return [] if report.get("ok") else [{"target": "go2coq_c17 (no job closure found or parse errors)", "lemma": None,
+                                        "errors": [json.dumps(report.get("parse_errors"))[:1500]]}]
+
+
+def write_set_offenders(ctx):
+    """The accesses the decision procedure rejects (printed by Coq), for the violation report."""
+    path = os.path.join(ctx.dir, "Offenders_C17.v")
+    open(path, "w").write("From Coq Require Import List String.\nFrom ADV Require Import C17.SitesGenDefs C17.Sites_gen.\n"
+                          "Eval vm_compute in (flat_map gsite_offenders gen_sites).\nEval vm_compute in (coverage_ok gen_sites).\n")
+    rc, out = vlib.coqc_file(path, timeout=300)
+    return " ".join(out.split())[-1500:]
+
+
+def shards_of(ctx, stem):
+    return sorted(glob.glob(os.path.join(ctx.dir, stem + "_*.v")), key=lambda p: int(p.rsplit("_", 1)[1][:-2]))
+
+
+def eval_all(ctx, stem, extra_stems=()):
+    """Evaluates <stem>_*.v, the extra stems and tol_*.v in one parallel batch.
+    Returns (cases, tols, results of cases, results of tols, {extra stem: results})."""
+    cases = shards_of(ctx, stem)
+    tols = shards_of(ctx, "tol")
+    extras = [(st, shards_of(ctx, st)) for st in extra_stems]
+    allp = cases + tols
+    for _, l in extras:
+        allp += l
+    res = vlib.eval_shards(allp)
+    out = {}
+    at = len(cases) + len(tols)
+    for st, l in extras:
+        out[st] = res[at: at + len(l)]
+        at += len(l)
+    return cases, tols, res[:len(cases)], res[len(cases):len(cases) + len(tols)], out
 
 
 def corr(ctx, binary, n, corpus):
@@ -47,7 +130,7 @@ def corr(ctx, binary, n, corpus):
         return [], []
     meta = json.load(open(os.path.join(ctx.dir, "cases.meta.json")))
     vlib.merge_meta(ctx, meta)
-    cases, tols, rc_, rt_ = eval_all(ctx, "cases")
+    cases, tols, rc_, rt_, ext = eval_all(ctx, "cases", ("ocases", "sagacases"))
     ctx.oblige(len(rc_) + len(rt_), sum(1 for r in rc_ + rt_ if r["ok"]))
     raw = vlib.load_jsonl(os.path.join(ctx.dir, "cases.jsonl"))
     rawt = vlib.load_jsonl(os.path.join(ctx.dir, "tol.jsonl")) if os.path.exists(os.path.join(ctx.dir, "tol.jsonl")) else []
@@ -71,9 +154,37 @@ def corr(ctx, binary, n, corpus):
             t = rawt[k * 12 + i]
             bad.append({"site": t["site"], "pool": t["pool"], "em": t.get("em"), "bw": t.get("bw"),
                         "out": {"what": t["what"], "go": t["go"]}})
+    # option-matrix and SAGA shards
+    nextra = 0
+    for stem in ("ocases", "sagacases"):
+        mp = os.path.join(ctx.dir, stem + ".meta.json")
+        if not os.path.exists(mp):
+            ctx.oblige(1, 0)
+            broken.append({"path": mp, "error": "the harness wrote no %s shards" % stem})
+            continue
+        m2 = json.load(open(mp))
+        vlib.merge_meta(ctx, m2)
+        hist = ctx.cov.setdefault("histogram", {})
+        for hk, hv in (m2.get("histogram") or {}).items():
+            hist[hk] = hist.get(hk, 0) + hv
+        ctx.cov.setdefault("extra", {}).update(m2.get("extra") or {})
+        raw2 = vlib.load_jsonl(os.path.join(ctx.dir, stem + ".jsonl"))
+        nextra += len(raw2)
+        rs = ext.get(stem, [])
+        ctx.oblige(len(rs), sum(1 for r in rs if r["ok"]))
+        for k, r in enumerate(rs):
+            if r["ok"]:
+                continue
+            if r["mism"] is None:
+                broken.append(r)
+                continue
+            for i in r["mism"]:
+                j = k * m2["per_shard"] + i
+                bad.append(raw2[j] if j < len(raw2) else {"site": stem, "index": j})
     for r in broken:
         ctx.violation({"obligation": "correspondence shard " + os.path.basename(r["path"]), "coqc_error": r["error"]}, False,
                       "correspondence shard did not evaluate")
+    ctx.cov["option_matrix_and_saga_cases"] = nextra
     ctx.cov["certified_logadd_goals"] = len(rawt)
     ctx.log("correspondence: %d cases in %d shards + %d certified log-add goals in %d shards, %d mismatching (%.1fs coqc max)" % (
         len(raw), len(rc_), len(rawt), len(rt_), len(bad), max([r["secs"] for r in rc_ + rt_] or [0])))
@@ -94,6 +205,16 @@ def race_stage(ctx, n):
     os.makedirs(rdir, exist_ok=True)
     rc, out = vlib.sh([binary, "--extra", "race", "--seed", str(ctx.seed), "--n", str(n), "--out", rdir], timeout=600, env=env)
     fails = []
+    blocks = out.split("WARNING: DATA RACE")[1:]
+    known_blocks = [b for b in blocks if saga_theta_race(b)]
+    if known_blocks:
+        ctx.cov["race_known"] = {"id": F_SAGA_THETA["id"], "reports": len(known_blocks)}
+        ctx.known_finding(F_SAGA_THETA["id"], F_SAGA_THETA["what"] + " — %d race detector report(s)" % len(known_blocks))
+        kept_out = out.split("WARNING: DATA RACE")[0]
+        for b in blocks:
+            if not saga_theta_race(b):
+                kept_out += "WARNING: DATA RACE" + b
+        out = kept_out
     races = out.count("WARNING: DATA RACE")
     summary = {}
     p = os.path.join(rdir, "race.json")
@@ -141,6 +262,39 @@ def hunt(ctx, binary, bad, n):
 
 
 # Genuine defect of the unchanged tree, matched narrowly (see corpus/C17/known_findings_proposed.json).
+F_BW_NOTRANS = {
+    "id": "F-BW-NOTRANS-NILDEREF", "property": "C17",
+    "site": "statistics/generic/hmm_baumWelch.go:48 baumWelchThread (reached with BaumWelchOptimizeTransitions{false} / HmmEstimator.OptimizeTransitions = false)",
+    "what": "with OptimizeTransitions = false tmp[.].tr is a nil *DenseFloat64Matrix and the reset block of baumWelchThread calls tr.Map on it: "
+            "nil pointer dereference in the first job of every step, for every pool size (recoverable on the caller's goroutine, fatal for the "
+            "process on a worker goroutine); the harness therefore drives this configuration on the pool of one thread only",
+}
+F_SAGA_THETA = {
+    "id": "F-SAGA-THETA-RACE", "property": "C17",
+    "site": "statistics/vectorEstimator/logisticRegression.go:473,475 (LogisticRegression.f_sparse; f_dense:447 alike), called from every SAGA worker job "
+            "(sagaLogisticRegressionL1.Execute -> Workers[i].Iterate -> obj.f)",
+    "what": "f_sparse stores the worker's parameter vector in the shared field obj.logisticRegression.Theta and then reads it back in LogPdfSparse: "
+            "unsynchronised write/read of a shared cell from all SAGA workers (a worker can evaluate its gradient at another worker's point)",
+}
+
+
+def saga_theta_race(block):
+    """A race-detector report caused by the shared obj.Theta of the SAGA objective: one side is the objective itself
+    (f_sparse / f_dense storing Theta, or LogPdfSparse / LogPdfDense reading through it), the other side is the objective
+    or a SAGA worker updating its own x1 (which another worker reads through the shared Theta)."""
+    tops = []
+    lines = block.split("\n")
+    for i, l in enumerate(lines):
+        ll = l.strip()
+        if (ll.startswith("Write at") or ll.startswith("Read at") or ll.startswith("Previous write at") or ll.startswith("Previous read at")) and i + 1 < len(lines):
+            tops.append(lines[i + 1].strip())
+    objective = ("(*LogisticRegression).f_sparse()", "(*LogisticRegression).f_dense()", "logisticRegression.LogPdfSparse()", "logisticRegression.LogPdfDense()")
+    worker = ("(*sagaLogisticRegressionL1worker).",)
+    is_obj = lambda t: any(o in t for o in objective)
+    is_wrk = lambda t: any(o in t for o in worker)
+    return len(tops) >= 2 and any(is_obj(t) for t in tops) and all(is_obj(t) or is_wrk(t) for t in tops)
+
+
 F_TP_ERRLATE = {
     "id": "F-TP-ERRLATE", "property": "C17",
     "site": "github.com/pbenner/threadpool threadpool.go AddJob/worker/Wait (used by BaumWelchStep, EmStep and every estimator)",
@@ -202,13 +356,24 @@ def tp_probe(ctx, binary):
 
 def run(ctx):
     ctx.cov["trusted_base"] = vlib.TRUSTED_BASE_COMMON + [
+        "go2coq_c17 (~600 lines of Go, go/parser + go/ast, no type checker): trusted to list the assignments and method calls of the job closures and of the same-package callees it follows; accesses through function values, interface methods and arguments written by a callee are not followed",
         "the threadpool package github.com/pbenner/threadpool (outside the library): assumed to execute every queued job exactly once; its AddRangeJob chunking is probed and compared with the model",
         "Coq-Interval (interval tactic) for the certified log-add comparisons",
         "Go race detector and a 20 s deadline: supporting evidence only",
         "axioms: see 'print_assumptions' (Reals axioms for the R / log-add instances only)"]
     ctx.cov["partial"] = PARTIAL
-    ctx.cov["hooks"] = ["statistics/generic/verif_c17.go (VerifC17BaumWelchSnap, VerifC17EmSnap, VerifC17BaumWelchStale, VerifC17EmStale)"]
+    ctx.cov["hooks"] = ["statistics/generic/verif_c17.go (VerifC17BaumWelchSnap, VerifC17EmSnap, VerifC17BaumWelchStale, VerifC17EmStale)",
+                        "statistics/vectorEstimator/verif_c17.go (VerifC17SagaPartition, VerifC17SagaSequential)"]
+    tfail = translate(ctx)
     ok, failures = vlib.proof_stage(ctx, TARGETS, PROPS)
+    failures = tfail + failures
+    ok = ok and not tfail
+    if any(f["target"] == "C17/ProofsSitesGen.vo" for f in failures):
+        off = write_set_offenders(ctx)
+        for f in failures:
+            if f["target"] == "C17/ProofsSitesGen.vo":
+                f["errors"] = (f.get("errors") or []) + [{"rejected_accesses": off}]
+        ctx.log("write-set theorem fails on the generated access lists: " + off[:600])
     thms = vlib.theorem_names(os.path.join(vlib.COQ, "C17/Props.v"))
     if ok:
         ctx.cov["print_assumptions"] = vlib.print_assumptions("C17", [("C17.Props", thms)], ctx.dir)
@@ -221,6 +386,9 @@ def run(ctx):
     bad, broken = corr(ctx, binary, 60 if quick else 500, os.path.join(vlib.ROOT, "corpus/C17/corpus.jsonl"))
     rfails = race_stage(ctx, 1500 if quick else 15000)
     probed = tp_probe(ctx, binary)
+    ntp = (ctx.cov.get("extra") or {}).get("bw_no_transitions_panics") or {}
+    if ntp.get("panics") and "nil pointer" in (ntp.get("message") or ""):
+        ctx.known_finding(F_BW_NOTRANS["id"], F_BW_NOTRANS["what"] + " — Coq: Props.baum_welch_without_transitions_panics_refuted")
     # known finding F-TP-ERRLATE: an injected failure whose error is lost RARELY on a pool of >= 2 threads
     def known_case(b):
         return (b.get("site") in ("bw-err", "em-err") and "Err:false" in (b.get("out") or "")
@@ -251,7 +419,8 @@ def run(ctx):
             if f.get("config"):
                 c = f["config"]
                 seeds.append({"site": c.get("site"), "pool": f.get("pool", {"k": 4}), "em": c.get("em"), "bw": c.get("bw"),
-                              "normal": c.get("normal"), "x": c.get("x")})
+                              "normal": c.get("normal"), "x": c.get("x"), "full": c.get("full"), "saga": c.get("saga"),
+                              "numeric": c.get("numeric")})
         h = hunt(ctx, binary, seeds, 300 if quick else 3000)
     else:
         h = hunt(ctx, binary, [], 150 if quick else 1500)
@@ -318,8 +487,8 @@ def replay(ctx, path):
         print(out[-2000:])
         return 2
     h = json.load(open(os.path.join(ctx.dir, "hunt.json")))
-    cases, tols, rc_, rt_ = eval_all(ctx, "replay")
-    agree = all(r["ok"] for r in rc_ + rt_)
+    cases, tols, rc_, rt_, ext = eval_all(ctx, "replay", ("oreplay", "sreplay"))
+    agree = all(r["ok"] for r in rc_ + rt_ + ext.get("oreplay", []) + ext.get("sreplay", []))
     print("model recomputation agrees with the implementation on this configuration: %s" % agree)
     print("parallel vs sequential oracle over 200 schedules: %s" % (h["failure"] if h.get("found") else "holds"))
     return 1 if (h.get("found") or not agree or raced) else 0
